@@ -48,7 +48,13 @@ def _center_on_batch_mean(batch):
   return {**batch, 'x': batch['x'] - batch['x'].mean(axis=0, keepdims=True) if len(batch['x']) else batch['x']}
 
 
-def population(sizes, seed=0, domains=2, ids=None, data_fn=None, typed_keys=False, batch_level_pre=False):
+def _halve_inplace(batch):
+  """A preprocessing fn in the 'update the dict you were given and return it' style; applying it twice differs from once."""
+  batch['x'] = batch['x'] * np.float32(0.5)
+  return batch
+
+
+def population(sizes, seed=0, domains=2, ids=None, data_fn=None, typed_keys=False, batch_level_pre=False, inplace_pre=False):
   """[(client_id, ClientDataset, PRNGKey)]; typed_keys: new-style jax.random.key(...) keys with the same key data."""
   import fedjax
   import jax
@@ -58,6 +64,8 @@ def population(sizes, seed=0, domains=2, ids=None, data_fn=None, typed_keys=Fals
     ex = (data_fn or client_data)(n, i, seed, domains)
     from fedjax.core import client_datasets as _cds
     ds = fedjax.ClientDataset(ex, _cds.BatchPreprocessor([_center_on_batch_mean])) if batch_level_pre else fedjax.ClientDataset(ex)
+    if inplace_pre:
+      ds = fedjax.ClientDataset(ex, _cds.BatchPreprocessor([_halve_inplace]))
     out.append((cid, ds, jax.random.key(100 + i) if typed_keys else jax.random.PRNGKey(100 + i)))
   return out
 
